@@ -304,6 +304,8 @@ def run_sign_artifacts(spec, rec, lib):
     key = gkeys.key(3)
     scenarios = [
         ("good", key.seed.hex(), True), ("good_upper_padded", "  " + key.seed.hex().upper() + "\n", True),
+        ("good_only_conda_section", key.seed.hex(), True), ("good_only_packages_section", key.seed.hex(), True),
+        ("good_both_sections_empty", key.seed.hex(), True), ("good_one_artifact", key.seed.hex(), True),
         ("key_not_hex", "zz" * 32, False), ("key_short", key.seed.hex()[:-2], False), ("key_empty", "", False),
         ("key_long", key.seed.hex() + "00", False), ("key_missing", None, False),
         ("repodata_not_json", key.seed.hex(), False), ("repodata_no_packages", key.seed.hex(), False),
@@ -319,6 +321,12 @@ def run_sign_artifacts(spec, rec, lib):
                     if os.path.exists(p):
                         os.remove(p)
                 orig = json.dumps(doc).encode()
+                shape = {"good_only_conda_section": {"info": {}, "packages": {}, "packages.conda": {"a-1-0.conda": {"name": "a"}, "b-1-0.conda": {"name": "b"}}},
+                         "good_only_packages_section": {"packages": {"a-1-0.tar.bz2": {"name": "a"}}, "packages.conda": {}},
+                         "good_both_sections_empty": {"packages": {}, "packages.conda": {}, "signatures": {"stale-1-0.conda": {}}},
+                         "good_one_artifact": {"packages": {"a-1-0.tar.bz2": {"name": "a"}}}}.get(scen)
+                if shape is not None:
+                    orig = json.dumps(shape).encode()
                 if scen == "repodata_not_json":
                     orig = b"{nope"
                 elif scen == "repodata_no_packages":
